@@ -133,7 +133,7 @@ Section RT.
     intros K. unfold settle_pending. cbn [C' with_mask c_fix_moveout].
     destruct (c_fix_moveout C); [|split; [reflexivity | exact K]].
     destruct (pend r) as [[c p]|]; [|split; [reflexivity | exact K]].
-    destruct (is_moved_to (k_mask e) && N.eqb (k_cookie e) c); [split; [reflexivity | exact K]|].
+    destruct (is_moved_to (k_mask e) && N.eqb (k_cookie e) c && amem N.eqb (k_wd e) (pfw r)); [split; [reflexivity | exact K]|].
     apply forget_tree_twin. exact K.
   Qed.
 
